@@ -51,14 +51,34 @@ def operand_name(x):
     return 'expr@%d' % x['i'] if x is not None else None
 
 
+class Arm(tuple):
+    """(return node, {operand name: (shift, operand node)}) with the conditions of the path that builds the value in .conds"""
+    def __new__(cls, ret, fields, conds):
+        o = tuple.__new__(cls, (ret, fields))
+        o.conds = conds
+        return o
+
+
 def encoder_arms(fn):
-    """[(return node, {name: (shift, operand node)})]"""
+    """one arm per path of the encoder: the packed value is the OR of terms `operand << shift`, written directly in a return or
+    accumulated in a local (`v = a | b; if (c) v |= d; return v;`). [(return node, {name: (shift, operand node)})] with .conds =
+    [(condition node, truth)] of the path."""
     arms = []
-    for r in fn.all_nodes():
-        if r['k'] != 'ReturnStmt' or not kids(r):
-            continue
+
+    def expand(e, env):
+        out = []
+        for t in flatten_or(e):
+            tt = strip_casts(t)
+            r = (tt.get('ref') or {}) if tt is not None else {}
+            if r.get('k') == 'Local' and r.get('id') in env:
+                out.extend(env[r['id']])
+            else:
+                out.append(t)
+        return out
+
+    def fields_of(terms):
         fields = {}
-        for t in flatten_or(kids(r)[0]):
+        for t in terms:
             tk = term(t)
             if tk is None:
                 raise AnalysisBroken('PACK: non-constant shift in %s' % fn.name)
@@ -67,7 +87,48 @@ def encoder_arms(fn):
             if nm in fields:
                 raise AnalysisBroken('PACK: operand %s appears twice in %s' % (nm, fn.name))
             fields[nm] = (k, x)
-        arms.append((r, fields))
+        return fields
+
+    def run(stmts, env, conds):
+        """returns True when every path through stmts has returned"""
+        for i, st in enumerate(stmts):
+            if st is None or st.get('mac') in ('assert', 'ASSERT'):
+                continue
+            k = st['k']
+            if k == 'CompoundStmt':
+                if run(kids(st) + stmts[i + 1:], env, conds):
+                    return True
+                return True
+            if k == 'ReturnStmt':
+                if kids(st):
+                    arms.append(Arm(st, fields_of(expand(kids(st)[0], env)), list(conds)))
+                return True
+            if k == 'IfStmt':
+                ks = kids(st)
+                rest = stmts[i + 1:]
+                for truth, br in ((True, ks[1]), (False, ks[2] if len(ks) > 2 else None)):
+                    e2 = {v: list(t) for v, t in env.items()}
+                    run(([br] if br is not None else []) + rest, e2, conds + [(ks[0], truth)])
+                return True
+            if k == 'DeclStmt':
+                for d in kids(st):
+                    if d['k'] == 'VarDecl' and kids(d):
+                        env[d['id']] = expand(kids(d)[0], env)
+                continue
+            e = strip_casts(st)
+            while e is not None and e['k'] in ('ExprWithCleanups',) and kids(e):
+                e = strip_casts(kids(e)[0])
+            if e is not None and e['k'] in ('BinaryOperator', 'CompoundAssignOperator') and e.get('op') in ('=', '|='):
+                t = strip_casts(kids(e)[0])
+                r = (t.get('ref') or {})
+                if r.get('k') == 'Local':
+                    new = expand(kids(e)[1], env)
+                    env[r['id']] = (env.get(r['id'], []) if e['op'] == '|=' else []) + new
+                    continue
+            if k in ('ForStmt', 'WhileStmt', 'DoStmt', 'SwitchStmt'):
+                raise AnalysisBroken('PACK: %s in encoder %s' % (k, fn.name))
+        return False
+    run(kids(fn.body), {}, [])
     if not arms:
         raise AnalysisBroken('PACK: no return in encoder %s' % fn.name)
     return arms
